@@ -40,7 +40,8 @@ theorem count_values : ∀ (es : List Item), SimpleValues es → ∀ (n : Nat) (
     have ih := count_values r h.2 n false (Item.field f).loc.endLine (Item.field f).typeOrder
       (rdItem (.field f) (startLine (g || gapBefore first le0 lt (.field f)) L)).2 (Item.field f).gapEnder
     have h1 := lineToks_value_ne n f h.1 (startLine (g || gapBefore first le0 lt (.field f)) L)
-    simp only [itemToks, leafLine, h.1.1, List.length_append, List.length_cons, needAll, need1] at ih h1 ⊢
+    have hpe : f.popts.isEmpty = true := by simp [Leaf.popts (Or.inr (Or.inl h.1))]
+    simp only [itemToks, hpe, if_true, leafLine, h.1.1, List.length_append, List.length_cons, needAll, need1] at ih h1 ⊢
     omega
   | .rpc _ _ _ _ _ _ :: _, h, _, _, _, _, _, _ => by simp [SimpleValues] at h
   | .block _ _ _ _ _ _ _ :: _, h, _, _, _, _, _, _ => by simp [SimpleValues] at h
@@ -54,7 +55,8 @@ theorem count_members : ∀ (es : List Item), SimpleMembers es → ∀ (n : Nat)
     have ih := count_members r h.2 n false (Item.field f).loc.endLine (Item.field f).typeOrder
       (rdItem (.field f) (startLine (g || gapBefore first le0 lt (.field f)) L)).2 (Item.field f).gapEnder
     have h1 := lineToks_field_ne n f h.1.1 (startLine (g || gapBefore first le0 lt (.field f)) L)
-    simp only [itemToks, leafLine, h.1.1.1, List.length_append, List.length_cons, needAll, need1] at ih h1 ⊢
+    have hpe : f.popts.isEmpty = true := by simp [Leaf.popts (Or.inl h.1.1)]
+    simp only [itemToks, hpe, if_true, leafLine, h.1.1.1, List.length_append, List.length_cons, needAll, need1] at ih h1 ⊢
     omega
   | .rpc _ _ _ _ _ _ :: _, h, _, _, _, _, _, _ => by simp [SimpleMembers] at h
   | .block _ _ _ _ _ _ _ :: _, h, _, _, _, _, _, _ => by simp [SimpleMembers] at h
@@ -63,12 +65,20 @@ mutual
 theorem count_item : ∀ (e : Item), SimpleItem e → ∀ (n s : Nat), 1 + need1 e ≤ (itemToks n e s).length
   | .field f, h, n, s => by
     simp only [SimpleItem] at h
-    rcases h with h | h
+    rcases h with h | h | h
     · have := lineToks_field_ne n f h s
-      simp only [itemToks, leafLine, h.1, need1]
+      have hpe : f.popts.isEmpty = true := by simp [Leaf.popts (Or.inl h)]
+      simp only [itemToks, hpe, if_true, leafLine, h.1, need1]
       omega
     · have := lineToks_map_ne n f h s
-      simp only [itemToks, leafLine, h.1, need1]
+      have hpe : f.popts.isEmpty = true := by simp [Leaf.popts (Or.inr (Or.inr h))]
+      simp only [itemToks, hpe, if_true, leafLine, h.1, need1]
+      omega
+    · have hpe : f.popts.isEmpty = false := by simpa using h.nonempty
+      obtain ⟨w, raws, e, c, hw, hty, htoks, _, _⟩ := h.read
+      obtain ⟨t, tl, hhead, _⟩ := headToks_start f w h.lab hw 0
+      simp only [itemToks, hpe, Bool.false_eq_true, if_false, need1, sh_length, htoks, hhead, List.length_append,
+        List.length_cons]
       omega
   | .rpc _ _ _ _ _ _, h, _, _ => h.elim
   | .block kw t l i name opts kids, h, n, s => by
@@ -341,10 +351,11 @@ theorem plain_quiet : ∀ (e : Item), Plain e → e.quiet
   | .field f, h => by
     simp only [Plain] at h
     simp only [Item.quiet, FieldD.quiet]
-    rcases h with h | h | h
+    rcases h with h | h | h | h
     · exact ⟨h.2.1, by rw [h.2.2.1]; simp⟩
     · exact ⟨h.2.1, by rw [h.2.2.1]; simp⟩
     · exact ⟨h.2.1, by rw [h.2.2.1]; simp⟩
+    · exact ⟨h.loc, h.unl⟩
   | .rpc _ _ _ _ _ _, h => by
     simp only [Plain] at h
     simp only [Item.quiet]
